@@ -19,6 +19,20 @@ SOLVERS = ['panoc']           # ZeroFPR / PANTR / PANOC-OCP: append once their l
 # what the monitors covered (written to the evidence file)
 COUNTS = {}
 
+# inputs kept from earlier failures, run first
+CORPUS = [
+    # recomp=1: callback 4 reports ψ_hat of the previous x̂ (known finding C05-recompute-reports-stale-psi-hat)
+    'run solver=panoc dir=lbfgs n=2 m=2 Q=4:c01c000000000000,bffc000000000000,bffc000000000000,c000000000000000 '
+    'c=2:c017000000000000,c019000000000000 q4=2:4000000000000000,3ff0000000000000 '
+    'A=4:3ff0000000000000,bfe0000000000000,bff0000000000000,0000000000000000 b=2:bfe0000000000000,0000000000000000 '
+    'Clb=2:c004000000000000,fff0000000000000 Cub=2:c004000000000000,7ff0000000000000 '
+    'Dlb=2:bffc000000000000,fff0000000000000 Dub=2:bffc000000000000,bffc000000000000 '
+    'l1=2:0000000000000000,3ff0000000000000 x0=2:bfe0000000000000,4006000000000000 '
+    'y0=2:bff4000000000000,c000000000000000 Sig=2:3fe0000000000000,3fd0000000000000 maxiter=20 '
+    'tol=3fb999999999999a crit=7 maxnp=10 overwrite=0 updcand=0 recomp=1 eager=1 force=0 mem=5 advseed=29 '
+    'L0=3f90000000000000 stopat=0 stopcb=0 nanat=0 oot=0 wmscratch=0',
+]
+
 
 def bump(k, n=1):
     COUNTS[k] = COUNTS.get(k, 0) + n
@@ -114,9 +128,17 @@ def monitor(op_line, out_line, st):
         elif rec[k]:
             # the reported iterate was rewritten with the new γ, L before the callback; ψ(x̂) is stale
             bump('qub_violated_on_rewritten_iterate')
-            return (f'callback {k} (recompute_last_prox_step_after_stepsize_change): reported iterate '
-                    f'violates the quadratic upper bound: ψ̂={lhs!r} > {rhs!r} with L={cb["L"]!r} < L_max',
-                    'C05-recompute-reports-untested-iterate')
+            ex = S.Exact(op)
+            true_psi = float(ex.psi(S.frv(cb['xhat']), S.frv(op.vec('y0')), S.frv(op.vec('Sig'))))
+            ok2 = math.isfinite(true_psi) and qub_holds(dict(cb, psi_hat=true_psi), P['qubtol'])[0]
+            if ok2:
+                return (f'callback {k} (recompute_last_prox_step_after_stepsize_change=true): the reported '
+                        f'tuple violates the quadratic upper bound (ψ̂={lhs!r} > {rhs!r}, L={cb["L"]!r} < '
+                        f'L_max) because ψ_hat={cb["psi_hat"]!r} is ψ at the *previous* x̂; ψ at the reported '
+                        f'x̂ is {true_psi!r}', 'C05-recompute-reports-stale-psi-hat')
+            return (f'callback {k} (recompute_last_prox_step_after_stepsize_change=true): reported iterate '
+                    f'violates the quadratic upper bound also with the true ψ(x̂)={true_psi!r} > {rhs!r}, '
+                    f'L={cb["L"]!r} < L_max (it was never tested)', 'C05-recompute-reports-untested-iterate')
         else:
             return (f'callback {k}: ψ(x̂)={lhs!r} > ψ+∇ψᵀp+½L‖p‖²+margin={rhs!r} (slack {slack:.3g}) '
                     f'although L={cb["L"]!r} < L_max={P["Lmax"]!r}')
@@ -186,7 +208,9 @@ def main(argv):
     tier = C.tier_from_argv(argv)
 
     def gen_ops(rng, n):
-        return [gen_run(rng).line() for _ in range(n)]
+        ops, dropped = LP.drop_non_functional(exe, [gen_run(rng).line() for _ in range(n)])
+        bump('runs_dropped_nan_injection_not_replayable', dropped)
+        return ops
 
     def extra(rep, broken, exe_, tier_):
         rep.cov['monitor_counts'] = dict(sorted(COUNTS.items()))
@@ -203,7 +227,7 @@ def main(argv):
                        'Alpaqa/Proofs/PanocLoop.lean', 'Alpaqa/Proofs/PanocDescent.lean',
                        'Alpaqa/Proofs/PanocInv.lean', 'Alpaqa/Proofs/PanocLoopExample.lean'],
         harness_name='solvers', harness_sources=[], harness_builder=lambda: (exe, log),
-        gen_ops=gen_ops, monitor=monitor, nontrivial=nontrivial, extra_stage=extra,
+        gen_ops=gen_ops, monitor=monitor, nontrivial=nontrivial, extra_stage=extra, corpus=CORPUS,
         driver_input=lambda o, h: o + ' || ' + S.events_only(h), impl_view=S.strip_events,
         n_quick=700, n_thorough=12000,
         trusted_base=[
